@@ -61,3 +61,15 @@ package discovery
 //@
 //@ func (*Member).HandleMessage
 //@   props C10 C07
+
+// ---- tags: the PRF input is the little-endian encoding of the member id (C13) -----------------------------------
+//@ func makePRF$1
+//@   props C13 C07
+//@   requires h != nil
+//@   on-call h.Write(b):
+//@     assert [id-bytes] len(b) == 2 && b[0] == byte(x) && b[1] == byte(x >> 8)
+//@
+//@ lemma idBytesInjective(x uint16, y uint16)
+//@   props C13
+//@   requires byte(x) == byte(y) && byte(x >> 8) == byte(y >> 8)
+//@   assert [injective] x == y
